@@ -17,7 +17,7 @@ BASES = {
     'mssdc': dict(kind='time', P=3, L=1, nsteps=4, maxiter=3),
     'pfasst': dict(kind='time', P=3, L=2, predict='pfasst_burnin', nsteps=4, maxiter=3),
     'nodes': dict(kind='nodes', M=3, QI='MIN-SR-S', nsteps=2, maxiter=3),
-    'nodes_ml': dict(kind='nodes', M=2, L=2, problem='heat', QI='MIN', nsteps=2, maxiter=2),
+    'nodes_ml': dict(kind='nodes', M=3, L=2, problem='heat', QI='MIN', nsteps=2, maxiter=2),
 }
 # time x node process grid (controller_MPI over the time communicator, node-parallel sweeper over the node communicator)
 BASE_ST = dict(kind='spacetime', P=2, M=2, QI='MIN', nsteps=3, maxiter=2)
@@ -35,6 +35,7 @@ DIMS_ST = {
     'maxiter': [2, 1, 4],
     'nsteps': [3, 2, 5],
     'predict': [None, 'pfasst_burnin'],
+    'quad': [('RADAU-RIGHT',), ('LOBATTO',), ('GAUSS',), ('RADAU-RIGHT', 'LOBATTO'), ('LOBATTO', 'RADAU-RIGHT')],
 }
 
 DIMS_TIME = {
@@ -52,6 +53,8 @@ DIMS_TIME = {
     'nsweeps': [1, 2],
     'QI': ['LU', 'IE', 'MIN-SR-S'],
     'finter': [False, True],
+    'quad': [('RADAU-RIGHT',), ('LOBATTO',), ('GAUSS',), ('RADAU-RIGHT', 'LOBATTO'), ('LOBATTO', 'RADAU-RIGHT')],
+    'node_type': [('LEGENDRE',), ('LEGENDRE', 'EQUID')],
 }
 DIMS_NODES = {
     'M': [3, 1, 2, 4],
@@ -64,6 +67,8 @@ DIMS_NODES = {
     'maxiter': [3, 1, 6],
     'nsteps': [2, 1, 3],
     'finter': [False, True],
+    'quad': [('RADAU-RIGHT',), ('LOBATTO',), ('GAUSS',), ('RADAU-RIGHT', 'LOBATTO'), ('LOBATTO', 'RADAU-RIGHT')],
+    'node_type': [('LEGENDRE',), ('LEGENDRE', 'EQUID')],
 }
 
 
@@ -72,6 +77,11 @@ def fix(c):
     c = dict(c)
     if c['problem'] == 'imex':
         c['sweeper'] = 'imex'
+    if c['L'] == 1:
+        # one level: only the first entry of a per-level list matters
+        c['quad'], c['node_type'] = tuple(c['quad'][:1]), tuple(c['node_type'][:1])
+    if c['kind'] in ('time', 'spacetime') and c['P'] > 1 and 'GAUSS' in c['quad']:
+        return None  # refused at construction (several steps need the right end point as node); C20's subject
     if c['kind'] == 'time':
         if c['L'] == 1:
             c['predict'] = None if c['predict'] is None else c['predict']
